@@ -32,7 +32,7 @@ ANCHORS = ["JoinOn.validate", "QueryBuilder.do_join", "Joiner.on", "Joiner.on_fi
            "QueryBuilder._on_conflict_sql", "PostgreSQLQueryBuilder._validate_returning_term", "PostgreSQLQueryBuilder._return_field_str",
            "QueryBuilder.into", "QueryBuilder.update", "QueryBuilder.delete", "QueryBuilder.rollup", "Table.for_", "Table.for_portion",
            "CreateQueryBuilder.create_table", "CreateQueryBuilder.primary_key", "DropQueryBuilder.drop_table"]
-WORKERS = {"quick": 8, "thorough": 16}
+WORKERS = {"quick": 16, "thorough": 16}
 
 SRC_SHAPES = ["plain", "aliased", "schema", "temporal", "subquery", "cte", "setop"]
 OPERAND_FORMS = ["plain", "fn", "neg", "arith", "in-subquery-foreign"]
@@ -104,7 +104,7 @@ def cases(tier, seed, shard, nshards):
                         yield {"k": "join", "d": dl[k % 6], "base": base, "item": item, "l": lsrc, "r": rsrc, "samecol": samecol,
                                "form": form, "extra": []}
     rnd = random.Random("C14:%d:%d" % (seed, shard))
-    for _ in range((3000 if tier == "quick" else 300000) // nshards):
+    for _ in range((40000 if tier == "quick" else 600000) // nshards):
         srcs = ["base", "item", "foreign", "base-copy", "item-copy", "prev-join", "update", "base2", "none", "foreign2",
                 "declared-cte", "declared-cte", "undeclared-cte"]
         yield {"k": "join", "d": rnd.choice(dl), "base": rnd.choice(SRC_SHAPES), "item": rnd.choice(SRC_SHAPES),
